@@ -527,18 +527,26 @@ func (s *sharedEntryAttributes) getRegularDeletes(deletes []DeleteEntry, aggrega
 			// so if we have an old and a new best cases (not "") and the names are different,
 			// all the old to the deletion list
 			if oldBestCaseName != "" && newBestCaseName != "" && oldBestCaseName != newBestCaseName {
-				// try fetching the case from the childs
-				oldBestCaseEntry, exists := s.childs.GetEntry(oldBestCaseName)
-				if exists {
-					deletes = append(deletes, oldBestCaseEntry)
-				} else {
+				// the case name is not necessarily the name of an element, and a case might consist of several
+				// elements. All the elements of the old best case need to be deleted.
+				for elemName := range v.cases[oldBestCaseName].elements {
+					// try fetching the element from the childs
+					oldBestCaseEntry, exists := s.childs.GetEntry(elemName)
+					if exists {
+						deletes = append(deletes, oldBestCaseEntry)
+						continue
+					}
 					// it might be that the child is not loaded into the tree, but just considered from the treecontext cache for the choice/case resolution
-					// if so, we create and return the DeleteEntryImpl struct
+					// if so, and the element carries a value, we create and return the DeleteEntryImpl struct for the path of the element
+					if v.cases[oldBestCaseName].elements[elemName].value == math.MaxInt32 {
+						continue
+					}
 					path, err := s.SdcpbPath()
 					if err != nil {
 						return nil, err
 					}
-					deletes = append(deletes, NewDeleteEntryImpl(path, append(s.Path(), oldBestCaseName)))
+					path.Elem = append(path.Elem, &sdcpb.PathElem{Name: elemName})
+					deletes = append(deletes, NewDeleteEntryImpl(path, append(s.Path(), elemName)))
 				}
 			}
 		}
